@@ -116,6 +116,14 @@ def huge_individual(case):
 
 
 def do_huge_case(ctx, case):
+    try:
+        return do_huge_case_checks(ctx, case)
+    except Exception as e:  # an accessor of a RESULT object raised: the implementation's failure, not the harness's
+        ctx.violation("oracle", f"huge-raises-{type(e).__name__}", f"an operation / accessor on the individual with many parameter values raised {type(e).__name__}: {str(e)[:200]}", case)
+        return None
+
+
+def do_huge_case_checks(ctx, case):
     """'many parameters': an individual whose flat value tuple is longer than 2^15 (2^16) entries; structural checks
     only (slices, change-one, change-all, remove, append) against the slices cut out by the layers' parameter counts.
     No model comparison: the Gallina literal would hold tens of thousands of values twice."""
@@ -173,6 +181,14 @@ def do_huge_case(ctx, case):
 
 
 def do_forms_case(ctx, case):
+    try:
+        return do_forms_case_checks(ctx, case)
+    except Exception as e:
+        ctx.violation("oracle", f"forms-raises-{type(e).__name__}", f"an operation / accessor in the argument-form family raised {type(e).__name__}: {str(e)[:200]}", case)
+        return None
+
+
+def do_forms_case_checks(ctx, case):
     """Argument forms of the VALUES arguments.  On /repo HEAD change_layer_parameter_values accepts any sized sequence
     (tuple, list, numpy array, tuple of numpy.float64, range, deque) and returns an individual with a clean tuple;
     change_parameter_values keeps the object it is given, so only tuples (also of numpy.float64) are legal there.
